@@ -20,7 +20,9 @@ def origins(E, ctx, seen=None):
         sub = E.ctxs[ck]
         if any(ex != sub.entry for ex in sub.exits):
             out.extend(origins(E, sub, seen))
-    if not out and any(ex != ctx.entry for ex in ctx.exits):
+    # contexts entered with a re-entrant (count >= 2) read lock exist only downstream of a leak that is reported at its
+    # own origin; the saturating counter makes their exit/entry comparison meaningless
+    if not out and any(ex != ctx.entry for ex in ctx.exits) and not any(k >= 2 for (_l, _m, k) in ctx.entry):
         out = [ctx]
     return out
 
